@@ -249,4 +249,15 @@ TrueWords  == {<<"t","r","u","e">>, <<"y","e","s">>, <<"o","n">>, <<"1">>}
 FalseWords == {<<"f","a","l","s","e">>, <<"n","o">>, <<"o","f","f">>, <<"0">>}
 BoolParse(s) == LET t == Trim(LowerSeq(s)) IN
                 [ok |-> t \in TrueWords \cup FalseWords, b |-> t \in TrueWords]
+\* outcome of ONE getter call on a stored text, uniformly typed: converted value (ok) or ValueError (~ok)
+Outcome(g, s) ==
+   IF g \in {"int", "as"} THEN LET p == IntParse(s) IN [ok |-> p.ok, ty |-> "int", neg |-> p.neg, mag |-> p.mag, repr |-> <<>>]
+   ELSE IF g = "float" THEN LET p == FloatParse(s) IN [ok |-> p.ok, ty |-> "float", neg |-> FALSE, mag |-> 0, repr |-> p.repr]
+   ELSE LET p == BoolParse(s) IN [ok |-> p.ok, ty |-> "bool", neg |-> FALSE, mag |-> IF p.ok /\ p.b THEN 1 ELSE 0, repr |-> <<>>]
+\* a history of getter calls on ONE UserData object: a getter reads the stored text, it never writes it,
+\* so every call sees the original text whatever was asked before
+GetInit(s, calls) == [store |-> s, calls |-> calls, k |-> 1, outs |-> <<>>]
+GetDone(h) == h.k > Len(h.calls)
+GetStep(h) == IF GetDone(h) THEN h
+              ELSE [h EXCEPT !.outs = Append(@, Outcome(h.calls[h.k], h.store)), !.k = @ + 1]      \* h.store untouched
 =============================================================================
